@@ -33,7 +33,8 @@ Record store := mkStore {
   st_next_id : Z; st_next_sofa : Z;    (* _xmi_id_generator, _sofa_num_generator *)
   st_heap : list (oid * fsobj);
   st_next_auto : N;                    (* label for the next DocumentAnnotation created by the CAS itself *)
-  st_genlog : list Z }.                (* ghost: ids handed out by the xmi id generator, most recent first *)
+  st_genlog : list Z }.                (* ghost: ids handed out by the xmi id generator, and explicit sofa ids it was
+                                          moved past while they were still free; most recent first *)
 
 Record handle := mkHandle { h_view : string; h_lenient : bool }.
 
@@ -100,12 +101,27 @@ Definition pyslice {A} (b e : option Z) (l : list A) : list A :=
 
 (* ---------------------------------------------------------------- the store operations *)
 
-(* _add_view without explicit ids: a new Sofa object, a new View on it, entered under `name` in both dicts *)
-Definition add_view (name : string) (s : store) : store :=
+(* _add_view (cas.py:277-297): xmiID given -> _xmi_id_generator.reserve_id(xmiID), else generate_id(); the same
+   for sofaNum on the sofa-number generator; then a new Sofa object carrying these two numbers, a new View on it,
+   entered under `name` in both dicts.  An explicit id may be any integer: below the generator's next value it is
+   taken as it is (and may then repeat an id in use — the caller's business), from the next value on it moves the
+   generator past it.  Ghost log: a generated id, or an explicit id accepted while still free. *)
+Definition view_xid (xid : option Z) (s : store) : Z := match xid with Some k => k | None => st_next_id s end.
+Definition view_next_id (xid : option Z) (s : store) : Z :=
+  match xid with Some k => if k >=? st_next_id s then k + 1 else st_next_id s | None => st_next_id s + 1 end.
+Definition view_genlog (xid : option Z) (s : store) : list Z :=
+  match xid with
+  | Some k => if k >=? st_next_id s then k :: st_genlog s else st_genlog s
+  | None => st_next_id s :: st_genlog s
+  end.
+Definition view_num (num : option Z) (s : store) : Z := match num with Some k => k | None => st_next_sofa s end.
+Definition view_next_sofa (num : option Z) (s : store) : Z :=
+  match num with Some k => if k >=? st_next_sofa s then k + 1 else st_next_sofa s | None => st_next_sofa s + 1 end.
+Definition add_view (name : string) (xid num : option Z) (s : store) : store :=
   let addr := List.length (st_sheap s) in
   mkStore (st_views s ++ [(name, mkView addr [])]) (st_sofas s ++ [(name, addr)])
-          (st_sheap s ++ [mkSofa name (st_next_id s) (st_next_sofa s) None None None None None])
-          (st_next_id s + 1) (st_next_sofa s + 1) (st_heap s) (st_next_auto s) (st_next_id s :: st_genlog s).
+          (st_sheap s ++ [mkSofa name (view_xid xid s) (view_num num s) None None None None None])
+          (view_next_id xid s) (view_next_sofa num s) (st_heap s) (st_next_auto s) (view_genlog xid s).
 
 Definition empty_store (heap : list (oid * fsobj)) : store := mkStore [] [] [] 1 1 heap 1000%N [].
 
@@ -182,7 +198,7 @@ Definition get_docann (ts : tsinfo) (s : store) (h : handle) : res (oid * store)
 (* ---------------------------------------------------------------- operations and observations *)
 
 Inductive op :=
-| OCreateView (h : nat) (name : string)
+| OCreateView (h : nat) (name : string) (xid num : option Z)   (* create_view(name, xmiID=xid, sofaNum=num) *)
 | OGetView (h : nat) (name : string)
 | OAdd (h : nat) (o : oid) (keep : bool)
 | ORemove (h : nat) (o : oid)
@@ -206,7 +222,7 @@ Inductive obs :=
 
 Definition op_handle (o : op) : option nat :=
   match o with
-  | OCreateView h _ | OGetView h _ | OAdd h _ _ | ORemove h _ | OSetText h _ | OSetMime h _ | OSetUri h _
+  | OCreateView h _ _ _ | OGetView h _ | OAdd h _ _ | ORemove h _ | OSetText h _ | OSetMime h _ | OSetUri h _
   | OSetArr h _ | OGetText h | OGetMime h | OGetUri h | OGetArr h | OSelectAll h | OGetLang h | OSetLang h _ => Some h
   | OCovered _ => None
   end.
@@ -249,9 +265,9 @@ Definition covered_text (s : store) (o : oid) : obs :=
 
 Definition step_h (ts : tsinfo) (s : state) (hd : handle) (o : op) : state * obs :=
   match o with
-  | OCreateView _ name =>
+  | OCreateView _ name xid num =>
       if memb name (akeys (st_views (st s))) then (s, ObErr EValue)
-      else (mkState (add_view name (st s)) (hs s ++ [mkHandle name (h_lenient hd)]), ObHandle (List.length (hs s)))
+      else (mkState (add_view name xid num (st s)) (hs s ++ [mkHandle name (h_lenient hd)]), ObHandle (List.length (hs s)))
   | OGetView _ name =>
       if memb name (akeys (st_views (st s)))
       then (mkState (st s) (hs s ++ [mkHandle name (h_lenient hd)]), ObHandle (List.length (hs s)))
@@ -322,7 +338,7 @@ Definition ctor_ops (k : ctor) : list op :=
   | None => []
   end ++ match k_lang k with Some l => [OSetLang 0 (Some l)] | None => [] end.
 Definition init0 (lenient : bool) (heap : list (oid * fsobj)) : state :=
-  mkState (add_view "_InitialView" (empty_store heap)) [mkHandle "_InitialView" lenient].
+  mkState (add_view "_InitialView" None None (empty_store heap)) [mkHandle "_InitialView" lenient].
 Definition init (ts : tsinfo) (k : ctor) (heap : list (oid * fsobj)) : state :=
   fst (run ts (init0 (k_lenient k) heap) (ctor_ops k)).
 
@@ -338,7 +354,7 @@ Definition family_count (ts : tsinfo) (s : store) (name : string) : nat :=
 (* retargeting an operation to another handle *)
 Definition retarget (h' : nat) (o : op) : op :=
   match o with
-  | OCreateView _ n => OCreateView h' n | OGetView _ n => OGetView h' n
+  | OCreateView _ n x k => OCreateView h' n x k | OGetView _ n => OGetView h' n
   | OAdd _ x k => OAdd h' x k | ORemove _ x => ORemove h' x
   | OSetText _ v => OSetText h' v | OSetMime _ v => OSetMime h' v | OSetUri _ v => OSetUri h' v | OSetArr _ v => OSetArr h' v
   | OGetText _ => OGetText h' | OGetMime _ => OGetMime h' | OGetUri _ => OGetUri h' | OGetArr _ => OGetArr h'
